@@ -1,5 +1,5 @@
 PROP = dict(
-    modules=["Shangrla.Props.C02"],
+    modules=["Shangrla.Props.C02", "Shangrla.Props.RiskLimitComparisonOutcome"],
     theorems=["Shangrla.C02.plurality_iff", "Shangrla.C02.plurality_iff_style", "Shangrla.C02.mean_style_nan",
               "Shangrla.C02.supermajority_iff", "Shangrla.C02.supermajority_iff_style", "Shangrla.C02.hasOneVote_eq",
               "Shangrla.C02.assort_range_plur", "Shangrla.C02.assort_range_super",
@@ -8,7 +8,24 @@ PROP = dict(
               "Shangrla.C02.tallyConsistent_of_enforce", "Shangrla.C02.tallyConsistent_of_noenforce",
               "Shangrla.C02.superCands_perm",
               "Shangrla.C02.witness_F19", "Shangrla.C02.witness_super_noenforce",
-              "Shangrla.C02.witness_super_outside"],
+              "Shangrla.C02.witness_super_outside",
+              # C02 composed with C03, C06, C09 and C01: a wrong reported outcome of a plurality / super-majority contest
+              # on the manual records => the comparison / ONEAudit audit (literal overstatement model: pools, phantoms,
+              # style filter) is ever reported complete with probability at most the risk limit; mvrOf is the bridge
+              # between the ballot model (Model/Vote, Model/Assorter) and the overstatement model's Mvr
+              "Shangrla.RiskLimit.mvrAssort_mvrOf", "Shangrla.RiskLimit.mvrA_ballots",
+              "Shangrla.RiskLimit.sum_mvrA_ballots", "Shangrla.RiskLimit.length_mvrA_ballots",
+              "Shangrla.RiskLimit.marks_foundBallots", "Shangrla.RiskLimit.valid_foundBallots",
+              "Shangrla.RiskLimit.wvalid_foundBallots",
+              "Shangrla.RiskLimit.plurality_comparison_null_iff", "Shangrla.RiskLimit.plurality_comparison_null",
+              "Shangrla.RiskLimit.supermajority_comparison_null_iff", "Shangrla.RiskLimit.supermajority_comparison_null",
+              "Shangrla.RiskLimit.comparison_full_data", "Shangrla.RiskLimit.comparison_full_risk_limit_cards",
+              "Shangrla.RiskLimit.plurality_comparison_risk_limit", "Shangrla.RiskLimit.plurality_comparison_risk_limit_found",
+              "Shangrla.RiskLimit.supermajority_comparison_risk_limit",
+              "Shangrla.RiskLimit.supermajority_comparison_risk_limit_found",
+              "Shangrla.RiskLimit.plurality_comparison_risk_limit_zip",
+              "Shangrla.RiskLimit.supermajority_comparison_risk_limit_zip",
+              "Shangrla.RiskLimit.example_comparison_outcome_exact"],
     groups={"assorter": (700, 12000)},
     design_ref="DESIGN.md section 5, C02",
     assumptions=[
@@ -21,5 +38,12 @@ PROP = dict(
         "enforce_rules=True, n_winners=1 and no truthy mark for a name outside the candidate list, or "
         "enforce_rules=False and no card marking two candidates; witnesses of the two excluded regions are "
         "witness_super_outside and witness_super_noenforce",
+        "plurality_/supermajority_comparison_risk_limit (C02 o C03 o C06 o C09 o C01): the hypotheses of "
+        "comparison_full_risk_limit (see C03) with assorter upper bound 1 resp. 1/(2f), 0 < f < 1; the manual record the "
+        "overstatement reads off a ballot is mvrOf (has_contest, phantom, assort(ballot)); the CVRs are arbitrary "
+        "(reported values in [0,u], an unpooled phantom CVR under audit has A = 1/2); 'wrong outcome' is stated on the "
+        "FOUND ballots of the cards under audit (CVR passes the style filter; card found; under style the manual record "
+        "lists the contest): marks(w) <= marks(l) + #records scored 0, resp. wvalid <= f * (valid + #records scored 0) "
+        "-- exactly equivalent to 'the assertion is false on the manual records' (the _null_iff theorems)",
     ],
 )
